@@ -343,7 +343,7 @@ pub fn run(mut ctx: Ctx) -> ! {
             "interleavings",
             "2SM sessions (one-time 3:1 long-term; initiator/receiver or both init_to_send) driven by <=128 actions {send 0..256 bytes, receive next, replay processed message}; non-trivial = both directions delivered and at least one replay after the receiver's ratchet advanced",
             6_000,
-            150_000,
+            100_000,
         )
         .min_nontrivial(0.25),
         || case(128),
